@@ -422,23 +422,35 @@ BUILTIN_EXPRS = ['x % y', 'x / y', 'x ^ y', 's ++ "z"', 'ArrayConcat(l, [3])', '
                  'Split(s, ",")', 'Join(Split(s, ","), "+")', 'ToString(x)',
                  'Greatest(x, y)', 'Least(x, y)', 'Sort(l)', 'Range(y)', 'Element(l, 0)',
                  'ToInt64(ToString(x))', 'x * y - x', '(if x in l then 1 else 0)',
-                 'Abs(x - y)', 'Length(s)', 'Upper(s)', 'Substr(s, 1, 2)']
+                 'Abs(x - y)', 'Length(s)', 'Upper(s)', 'Substr(s, 1, 2)',
+                 # every further entry has a per-dialect SQL template too (measured from
+                 # dialects.*.BuiltInFunctions / InfixOperators on the pinned tree)
+                 'Log(x)', 'ToFloat64(x)', 'ToInt64(s)', 'Format("%d", x)', 'Like(s, "a%")',
+                 'Replace(s, "a", "b")', 'RangeOf(l)', 'IsNull(x)', 'Join(l, "-")',
+                 '(if x in Range(y) then 1 else 0)', 'DateAddDay("2020-01-01", x)',
+                 'DateDiffDay("2020-01-02", "2020-01-01")', 'MagicalEntangle(x, y)',
+                 'JsonExtract(s, "$")', 'Rand()', 'Least(x, y, 7)', 'Sort(Split(s, ","))',
+                 'ArrayConcat(Range(y), l)', 'Size(Split(s, ","))']
+BUILTIN_AGGS = ['AnyValue= x', 'Count= y', 'List= x', 'Set= y', 'StringAgg= s',
+                'LogicalAnd= (x > y)', 'LogicalOr= (x > y)', 'Sum= x', 'Max= x',
+                'Array= (x -> y)', 'ArgMax= (x -> y)', 'Avg= x']
 ENGINES_8 = ['sqlite', 'duckdb', 'psql', 'bigquery', 'trino', 'presto', 'clickhouse',
              'databricks', None]
 
 
 @st.composite
-def builtin_program(draw):
-    """Infix operators and built-in functions whose SQL template is chosen per dialect:
-    the text compiled for one engine must not depend on which engines were compiled
-    earlier in the process (class-level function / operator tables)."""
-    engine = draw(st.sampled_from(ENGINES_8))
-    names = draw_names(draw, 3)
-    t, p = names[0], names[1]
+def builtin_program(draw, engine='<draw>'):
+    """Infix operators, built-in functions and aggregations whose SQL template is chosen
+    per dialect: the text compiled for one engine must not depend on which engines were
+    compiled earlier in the process (class-level function / operator tables)."""
+    if engine == '<draw>':
+        engine = draw(st.sampled_from(ENGINES_8))
+    names = draw_names(draw, 4)
+    t, p, agg = names[0], names[1], names[2]
     lines = [engine_line(engine).strip()] if engine else []
     lines.append('%s(x: %d, y: %d, l: [1, 2], s: "a,b");' % (
         t, draw(st.integers(3, 9)), draw(st.integers(1, 3))))
-    k = draw(st.integers(2, 6))
+    k = draw(st.integers(2, 7))
     exprs = draw(st.lists(st.sampled_from(BUILTIN_EXPRS), min_size=k, max_size=k, unique=True))
     fields = ', '.join('f%d: %s' % (i, e) for i, e in enumerate(exprs))
     body = '%s(x:, y:, l:, s:)' % t
@@ -447,10 +459,26 @@ def builtin_program(draw):
     lines.append('%s(%s) :- %s;' % (p, fields, body))
     lines.append('Test(%s) :- %s(%s);' % (', '.join('f%d:' % i for i in range(k)), p,
                                          ', '.join('f%d:' % i for i in range(k))))
-    return {'text': '\n'.join(lines) + '\n', 'preds': ['Test'],
-            'labels': ['shape:builtins', 'engine:%s' % (engine or 'default')],
-            'role': 'gen', 'multiset': False}
+    preds = ['Test']
+    labels = ['shape:builtins', 'engine:%s' % (engine or 'default')]
+    na = draw(st.integers(0, 3))
+    if na:
+        aggs = draw(st.lists(st.sampled_from(BUILTIN_AGGS), min_size=na, max_size=na,
+                             unique=True))
+        lines.append('%s(k: y, %s) distinct :- %s(x:, y:, l:, s:);' % (
+            agg, ', '.join('a%d? %s' % (i, a) for i, a in enumerate(aggs)), t))
+        preds.append(agg)
+        labels.append('builtin_aggregations')
+    return {'text': '\n'.join(lines) + '\n', 'preds': preds, 'labels': labels,
+            'role': 'gen', 'multiset': False, 'engine': engine or 'default'}
 
+
+@st.composite
+def builtin_trio(draw):
+    """Three built-in programs for pairwise different engines (every shard's histories
+    need engine switches)."""
+    engs = list(draw(st.permutations(ENGINES_8)))[:3]
+    return tuple(draw(builtin_program(engine=e)) for e in engs)
 
 
 @st.composite
